@@ -975,4 +975,7 @@ def env : Env := stubs ++ messages
 /-- Model bytes for one line of the differential probe (see `runProtoProbeWith`). -/
 def runProtoProbe (line : String) : String := runProtoProbeWith env line
 
+/-- Verdict for one line of the decode probe (see `runProtoDecodeProbeWith`). -/
+def runProtoDecodeProbe (line : String) : String := runProtoDecodeProbeWith env line
+
 end Hub.Generated.Proto
